@@ -170,6 +170,14 @@ def run_wb2native(c):
     fsm = getattr(dut.bridge, "fsm", None)
     narrow_path = wbw < pw
 
+    scr = r.random() < 0.5      # half of the masters drive garbage on adr / we / sel / dat_w / cti whenever stb is low
+
+    def garbage():
+        if not scr:
+            return []
+        return [wb.adr.eq(r.getrandbits(len(wb.adr))), wb.we.eq(r.getrandbits(1)), wb.sel.eq(r.getrandbits(wbb)),
+                wb.dat_w.eq(r.getrandbits(wbw)), wb.cti.eq(r.choice([0, 2, 7, 1]))]
+
     def main():
         cyc_n = 0
         yield [wb.cyc.eq(0), wb.stb.eq(0)]
@@ -179,7 +187,7 @@ def run_wb2native(c):
             for bi, b in enumerate(g):
                 for _ in range(r.randint(0, c["gap"]) if c["gap"] else 0):
                     # between beats of a burst the master may insert wait states (stb low, cyc high)
-                    yield wb.stb.eq(0)
+                    yield [wb.stb.eq(0)] + garbage()
                     yield
                     if (yield wb.ack):
                         res["spurious"] += 1
@@ -223,9 +231,9 @@ def run_wb2native(c):
                                                      cti=b["cti"]))
                                 break
                     if bi == len(g) - 1:
-                        yield [wb.stb.eq(0), wb.cyc.eq(0)]
+                        yield [wb.stb.eq(0), wb.cyc.eq(0)] + garbage()
                     else:
-                        yield wb.stb.eq(0)
+                        yield [wb.stb.eq(0)] + garbage()
                     yield
                     # a second ack for the same access?
                     if (yield wb.ack):
